@@ -48,23 +48,34 @@ def Chain : List Path → Prop
   | [_] => True
   | g :: f :: rest => Edge fs root rf f g ∧ Chain (f :: rest)
 
-/-- `a` leads to `b` through include directives (reflexive, transitive). -/
-inductive Leads : Path → Path → Prop where
-  | refl (a : Path) : Leads a a
-  | tail {a b c : Path} : Leads a b → Edge fs root rf b c → Leads a c
+/-- `g` can be entered by the traversal: it is the root, or it can be loaded. -/
+def Enterable (g : Path) : Prop := g = root ∨ Loadable fs lim g
+
+/-- an include directive of `f` names `g`, and `g` can be entered -/
+def EdgeL (f g : Path) : Prop := Edge fs root rf f g ∧ Enterable fs lim root g
+
+/-- `a` leads to `b` through include directives between files that can be entered
+    (reflexive, transitive). -/
+inductive LeadsL : Path → Path → Prop where
+  | refl (a : Path) : LeadsL a a
+  | tail {a b c : Path} : LeadsL a b → EdgeL fs lim root rf b c → LeadsL a c
+
+/-- `a` lies on a cycle of include directives. -/
+def OnCycle (a : Path) : Prop := ∃ b, EdgeL fs lim root rf a b ∧ LeadsL fs lim root rf b a
 
 /-- What it means for a diagnostic to be in the right place.  Every error belongs to a file `b`
     that is reachable from the root; an error about an included file `g` carries the range of a
     directive of `b` that names `g`, and the reason it gives is true:
     * cycle — following the directive re-enters `g`, from which `b` is being included
-      (`g` leads to `b`: the directive closes a real cycle);
+      (`g` leads back to `b`: the directive closes a real cycle);
     * not found / too large — `g` is missing, or exceeds the size limit;
     * depth — `g` could be loaded but lies deeper than the limit allows;
     * path traversal / glob without match / bad pattern — carried by the directive itself;
     * parse error — at the position the parser gave, in `b`. -/
 inductive Located : Err → Prop where
   | cycle {b g : Path} {fb : File} {i : Inc} : Reach fs lim root rf b → fileOf fs root rf b = some fb →
-      i ∈ fb.incs → Names fs b i g → Leads fs root rf g b → Located ⟨.cycle, g, "", i.rng, some b⟩
+      i ∈ fb.incs → Names fs b i g → Enterable fs lim root g → LeadsL fs lim root rf g b →
+      Located ⟨.cycle, g, "", i.rng, some b⟩
   | notFound {b g : Path} {fb : File} {i : Inc} : Reach fs lim root rf b → fileOf fs root rf b = some fb →
       i ∈ fb.incs → Names fs b i g → fs g = none → Located ⟨.notFound, g, "", i.rng, none⟩
   | tooLarge {b g : Path} {fb fg : File} {i : Inc} : Reach fs lim root rf b → fileOf fs root rf b = some fb →
